@@ -25,7 +25,7 @@ import (
 )
 
 func TestVerifC20Node(t *testing.T) {
-	vRun(t, "C20.node", vCount(250, 6000), func(c *vCase) {
+	vRun(t, "C20.node", vCount(250, 20000), func(c *vCase) {
 		c.Bubble(func() {
 			// Yields in the metadata store sit exactly between the validator's read-locked and write-locked
 			// sections, so concurrent validation workers overlap there. (A virtual-time sleep cannot be used:
